@@ -88,3 +88,35 @@ Lemma request_cs_not_idle c up conn ka :
   | None => is_idle (cs_client (process_error c true)) = false
   end.
 Proof. destruct c as [cl sv k su sc]. cbn. intros ->. destruct sv, k, su, sc, up, conn, ka; vm_compute; try split; reflexivity. Qed.
+
+(* ---- the request cap: once the server side has left the states from which it can complete a response with
+   keep-alive still on, no new cycle can start.  capG c: the server is not in SEND_BODY / DONE, or keep-alive is
+   off and the server is not DONE.  It survives every event except a server Response (whose Connection: close
+   switches keep-alive off, which restores it), errors, proposals; it holds after any accepted Request; and it
+   rules out start_next_cycle. *)
+Definition capG (c : cstate) : bool :=
+  negb (h1state_eqb (cs_server c) SEND_BODY || is_done (cs_server c)) || (negb (cs_keep_alive c) && negb (is_done (cs_server c))).
+Definition is_response (k : evkind) : bool := match k with KResponse => true | _ => false end.
+Definition chk_cap_event (c : cstate) (role : bool) (k : evkind) (sw : switch) : bool :=
+  match process_event c role k sw with
+  | Some c' => impb (capG c) (if negb role && is_response k then capG (keep_alive_disabled c') else capG c')
+  | None => true
+  end.
+Lemma chk_cap_event_holds c role k sw : chk_cap_event c role k sw = true.
+Proof. all_cs c; destruct role, k, sw; vm_compute; reflexivity. Qed.
+Definition chk_cap_misc (c : cstate) (b1 b2 : bool) : bool :=
+  impb (capG c) (capG (process_error c b1) && capG (propose c b1 b2) && capG (keep_alive_disabled c)
+                 && match start_next_cycle c with None => true | Some _ => false end).
+Lemma chk_cap_misc_holds c b1 b2 : chk_cap_misc c b1 b2 = true.
+Proof. all_cs c; destruct b1, b2; vm_compute; reflexivity. Qed.
+Definition chk_cap_request (c : cstate) (up conn kal : bool) : bool :=
+  match request_cs c up conn kal with Some c' => capG c' | None => true end.
+Lemma chk_cap_request_holds c up conn kal : chk_cap_request c up conn kal = true.
+Proof. all_cs c; destruct up, conn, kal; vm_compute; reflexivity. Qed.
+Definition chk_cap_response (c : cstate) (sw : switch) : bool :=
+  match process_event c false KResponse sw with
+  | Some c' => impb (capG c) (capG (keep_alive_disabled c'))
+  | None => true
+  end.
+Lemma chk_cap_response_holds c sw : chk_cap_response c sw = true.
+Proof. all_cs c; destruct sw; vm_compute; reflexivity. Qed.
